@@ -10,6 +10,7 @@ import (
 	"context"
 	"crypto/sha256"
 	"fmt"
+	"runtime"
 	"sort"
 	"sync"
 
@@ -31,7 +32,7 @@ const (
 type fault struct {
 	Part    int    `json:"part"`    // request offset / part size
 	Attempt int    `json:"attempt"` // 0 = first request for that offset
-	Kind    string `json:"kind"`    // flood | premium | timeout-rpc | timeout-net | deadline
+	Kind    string `json:"kind"`    // flood | premium | timeout-rpc | timeout-net | deadline | fatal (not retryable)
 }
 
 type wDown struct {
@@ -41,6 +42,12 @@ type wDown struct {
 	Threads  int     `json:"threads"`
 	Verify   bool    `json:"verify,omitempty"` // WithVerify(true): hash-driven reader
 	Faults   []fault `json:"faults,omitempty"`
+	// HoldSet: the mock does not answer a retry (attempt >= 1) of part Hold before the final block of the file
+	// has been written (or, for an empty final block, answered). Forces "an earlier part is still in flight when
+	// the end of the file is seen".
+	Hold    int  `json:"hold_part,omitempty"`
+	HoldSet bool `json:"hold,omitempty"`
+	Rep     int  `json:"repetition,omitempty"`
 }
 
 type netTimeout struct{}
@@ -61,6 +68,8 @@ func faultErr(kind string) error {
 		return errors.Wrap(netTimeout{}, "read tcp")
 	case "deadline":
 		return errors.Wrap(context.DeadlineExceeded, "invoke")
+	case "fatal":
+		return tgerr.New(400, "FILE_REFERENCE_EXPIRED")
 	}
 	panic("unknown fault kind " + kind)
 }
@@ -74,11 +83,18 @@ type mock struct {
 	attempts map[int64]int
 	injected int
 	calls    int
-	answers  int      // successful UploadGetFile answers (each carries the type)
+	answers  int           // successful UploadGetFile answers (each carries the type)
+	fatal    int           // non-retryable answers given
+	holdOff  int64         // offset whose retries are held (-1: none)
+	finalOff int64         // offset of the final (short or empty) block
+	final    chan struct{} // closed when the final block has been written (non-empty) / answered (empty)
+	finalOne sync.Once
 	odd      []string // requests that the API does not allow
 }
 
-func (m *mock) UploadGetFile(_ context.Context, r *tg.UploadGetFileRequest) (tg.UploadFileClass, error) {
+func (m *mock) finalDone() { m.finalOne.Do(func() { close(m.final) }) }
+
+func (m *mock) UploadGetFile(ctx context.Context, r *tg.UploadGetFileRequest) (tg.UploadFileClass, error) {
 	m.mu.Lock()
 	a := m.attempts[r.Offset]
 	m.attempts[r.Offset] = a + 1
@@ -92,9 +108,26 @@ func (m *mock) UploadGetFile(_ context.Context, r *tg.UploadGetFileRequest) (tg.
 	if r.Limit <= 0 || r.Offset < 0 {
 		m.odd = append(m.odd, fmt.Sprintf("offset=%d limit=%d", r.Offset, r.Limit))
 	}
+	if kind == "fatal" {
+		m.fatal++
+	}
 	m.mu.Unlock()
+	if r.Offset == m.holdOff && a >= 1 {
+		// hold this retry until the end of the file has gone through (no timing: channel + yields)
+		select {
+		case <-m.final:
+		case <-ctx.Done():
+			return nil, ctx.Err()
+		}
+		for i := 0; i < 64; i++ {
+			runtime.Gosched()
+		}
+	}
 	if kind != "" {
 		return nil, faultErr(kind)
+	}
+	if r.Offset == m.finalOff && m.size%int64(m.ps) == 0 {
+		defer m.finalDone() // empty final block: nothing will be written for it
 	}
 	n := 0
 	if r.Offset < m.size && r.Limit > 0 {
@@ -139,6 +172,7 @@ func (m *mock) UploadGetWebFile(context.Context, *tg.UploadGetWebFileRequest) (*
 
 // sink verifies every write against the file. Stream mode appends; parallel mode writes at offsets.
 type sink struct {
+	m       *mock
 	mu      sync.Mutex
 	pos     int64 // stream position
 	cover   reffiles.Intervals
@@ -172,11 +206,21 @@ func (s *sink) WriteAt(p []byte, off int64) (int, error) {
 	}
 	s.cover.Add(off, off+int64(len(p)))
 	s.written += int64(len(p))
+	if off == s.m.finalOff && len(p) > 0 {
+		s.m.finalDone()
+	}
 	return len(p), nil
 }
 
 func evalDownload(w wDown) kit.Result {
-	m := &mock{size: w.Size, ps: w.PartSize, window: w.PartSize, faults: map[[2]int]string{}, attempts: map[int64]int{}}
+	m := &mock{size: w.Size, ps: w.PartSize, window: w.PartSize, faults: map[[2]int]string{}, attempts: map[int64]int{},
+		holdOff: -1, finalOff: w.Size / int64(w.PartSize) * int64(w.PartSize), final: make(chan struct{})}
+	if w.HoldSet {
+		if w.Mode != "parallel" || w.Threads < 2 || w.Verify || int64(w.Hold)*int64(w.PartSize) >= m.finalOff {
+			panic("hold needs a parallel download with >= 2 threads and a held part before the final one")
+		}
+		m.holdOff = int64(w.Hold) * int64(w.PartSize)
+	}
 	if w.Verify {
 		// hash windows deliberately differ from the part size (the verified reader follows the windows)
 		m.window = 2 * w.PartSize
@@ -189,7 +233,7 @@ func evalDownload(w wDown) kit.Result {
 	if w.Verify {
 		b = b.WithVerify(true)
 	}
-	s := &sink{}
+	s := &sink{m: m}
 	var (
 		typ tg.StorageFileTypeClass
 		err error
@@ -206,8 +250,24 @@ func evalDownload(w wDown) kit.Result {
 	if w.Verify {
 		pre = "verified:"
 	}
+	m.mu.Lock()
+	fatal := m.fatal
+	m.mu.Unlock()
 	if err != nil {
+		if fatal > 0 {
+			// a non-retryable answer was given: failing is a legitimate outcome
+			return kit.OKo(pre + w.Mode + "/failed-on-fatal-answer")
+		}
 		return kit.Bad(pre+"unexpected-error", "download failed although only FLOOD_WAIT / retryable timeouts were injected: %v", err)
+	}
+	if fatal > 0 && s.bad == "" && !s.cover.Dup && !s.cover.Covers(w.Size) {
+		// success although a part request was answered with a non-retryable error and the file is incomplete
+		r := s.cover.Ranges()
+		if len(r) > 6 {
+			r = r[:6]
+		}
+		return kit.Bad(pre+"fatal-error-swallowed", "a request was answered FILE_REFERENCE_EXPIRED (not retryable), the download reported success, "+
+			"but the file has %d bytes and the written ranges are %v (faults %+v, held part %d/%v)", w.Size, r, w.Faults, w.Hold, w.HoldSet)
 	}
 	if s.bad != "" {
 		return kit.Bad(pre+"content", "%s", s.bad)
@@ -234,6 +294,12 @@ func evalDownload(w wDown) kit.Result {
 		return kit.Bad(pre+"type", "every server answer carried storage.filePng, the download reported %v", typ)
 	}
 	out := pre + w.Mode
+	if w.HoldSet {
+		out += "/held-retry"
+	}
+	if fatal > 0 {
+		out += "/exact-file-despite-fatal-answer"
+	}
 	switch {
 	case len(w.Faults) > 0 && m.injected == len(w.Faults):
 		out += "/retried"
@@ -282,13 +348,17 @@ func main() {
 		c.Rule("family download: real Builder.Stream / Builder.Parallel against a mock serving a synthetic file. (1) fault grid: part size 4 KiB " +
 			"(thorough also 64 KiB) x size in {0,1,ps-1,ps,ps+1,2ps-1,2ps,2ps+1,3ps} x {stream, parallel with 1..8 threads} x every assignment of " +
 			"<= 2 (thorough 3) consecutive-attempt faults to the requests for parts 0..min(n,3) (n = the request that returns the short/empty block) " +
-			"x kinds {FLOOD_WAIT, rpc Timeout, net timeout, deadline exceeded} (thorough + FLOOD_PREMIUM_WAIT); (2) sizes {3ps+1,5ps+7,8ps,9ps-1,16ps,16ps+1,33ps} x part sizes " +
+			"x kinds {FLOOD_WAIT, rpc Timeout, net timeout, deadline exceeded, non-retryable FILE_REFERENCE_EXPIRED} (thorough + FLOOD_PREMIUM_WAIT); (2) sizes {3ps+1,5ps+7,8ps,9ps-1,16ps,16ps+1,33ps} x part sizes " +
 			"{1 KiB, 4 KiB, 128 KiB, 512 KiB} x stream/parallel 1..8 threads, no fault and one fault on the last request; (3) WithVerify(true) " +
 			"(hash windows of 2 part sizes) over grid (1) sizes without faults and with single faults; (4) one large file (quick 64 MiB, thorough 1 GiB + 5 bytes, 512 KiB parts, " +
-			"stream and 8 threads). distinct = distinct witnesses. Oracle: no error, every written byte equals the file byte at its position, " +
+			"stream and 8 threads); (5) forced order: sizes {ps+100,2ps+100,3ps+100,5ps+7,3ps} x threads {2,3,8} (thorough {2,3,4,5,8}) x held part k < final part: the first " +
+			"request for part k gets FLOOD_WAIT / rpc Timeout and its retry is answered (with FILE_REFERENCE_EXPIRED, or with the data) only after the final block of the file has " +
+			"been written (channel-ordered in the mock, 3 (thorough 8) repetitions). distinct = distinct witnesses. Oracle: no error unless a non-retryable answer was given " +
+			"(then the download either fails or writes exactly the file; success with missing bytes = class fatal-error-swallowed), every written byte equals the file byte at its position, " +
 			"the written ranges are exactly [0,size) with no byte written twice, reported type = the type every answer carried.")
 		c.Assume("default goroutine schedule only; the <=2-preemption interleaving part of the plan needs the controlled scheduler and is not covered here; " +
-			"the mock answers requests beyond the end of the file with an empty block; clock.System is replaced by an instant clock so FLOOD_WAIT does not sleep")
+			"the mock answers requests beyond the end of the file with an empty block; in (5) the enforced order is 'final block written (empty final block: answered) " +
+			"before the held retry is answered'; the few instructions between a worker's hand-over of the final block and its end-of-file signal are not controlled (a miss is possible there, a false alarm is not); clock.System is replaced by an instant clock so FLOOD_WAIT does not sleep")
 
 		type mt struct {
 			mode string
@@ -298,7 +368,7 @@ func main() {
 		for th := 1; th <= 8; th++ {
 			modes = append(modes, mt{"parallel", th})
 		}
-		kinds := []string{"flood", "timeout-rpc", "timeout-net", "deadline"}
+		kinds := []string{"flood", "timeout-rpc", "timeout-net", "deadline", "fatal"}
 		maxF := 2
 		pss := []int{4 * kib}
 		if c.Thorough() {
@@ -319,7 +389,7 @@ func main() {
 						ws = append(ws, wDown{Size: size, PartSize: ps, Mode: md.mode, Threads: md.th, Faults: fp})
 					}
 					// (3) verified reader
-					for _, fp := range faultPatterns(reqs, kinds[:2], 1) {
+					for _, fp := range faultPatterns(reqs, []string{"flood", "timeout-rpc", "fatal"}, 1) {
 						ws = append(ws, wDown{Size: size, PartSize: ps, Mode: md.mode, Threads: md.th, Verify: true, Faults: fp})
 					}
 				}
@@ -332,6 +402,31 @@ func main() {
 					last := int(size / p)
 					for _, fp := range [][]fault{nil, {{last, 0, "flood"}}, {{last - 1, 0, "timeout-rpc"}, {last, 0, "timeout-net"}}} {
 						ws = append(ws, wDown{Size: size, PartSize: ps, Mode: md.mode, Threads: md.th, Faults: fp})
+					}
+				}
+			}
+		}
+		// (5) forced order: the retry of an earlier part is answered only after the final block went through
+		reps := 3
+		holdThreads := []int{2, 3, 8}
+		if c.Thorough() {
+			reps = 8
+			holdThreads = []int{2, 3, 4, 5, 8}
+		}
+		for _, size := range []int64{4*kib + 100, 2*4*kib + 100, 3*4*kib + 100, 5*4*kib + 7, 3 * 4 * kib} {
+			last := int(size / (4 * kib))
+			for _, th := range holdThreads {
+				for k := 0; k < last; k++ {
+					for _, first := range []string{"flood", "timeout-rpc"} {
+						for _, second := range []string{"fatal", ""} {
+							fp := []fault{{k, 0, first}}
+							if second != "" {
+								fp = append(fp, fault{k, 1, second})
+							}
+							for rp := 0; rp < reps; rp++ {
+								ws = append(ws, wDown{Size: size, PartSize: 4 * kib, Mode: "parallel", Threads: th, Faults: fp, Hold: k, HoldSet: true, Rep: rp})
+							}
+						}
 					}
 				}
 			}
